@@ -146,6 +146,10 @@ class Gen:
         resources = [{"name": n, "type": t, "value": gen_expr(rng, scope_l, 2)} for n, t in self.subset(pool, 1, 3)]
         if self.qubits and rng.random() < 0.5:
             resources.append({"name": "local_ancillae", "type": "qubits", "value": gen_size_expr(rng, scope)})
+        if params and rng.random() < 0.15:
+            # a resource that bears the name of one of the routine's own parameters (`depth` the parameter, `depth` the cost):
+            # an unlinked parameter is promoted to `child.depth`, the very text that also names the child's resource
+            resources.append({"name": params[0], "type": "additive", "value": gen_expr(rng, scope_l, 2)})
         return {"name": name, "type": rng.choice([None, "leaf"]), "input_params": params, "local_variables": locals_,
                 "linked_params": [], "ports": ports, "resources": resources, "connections": [], "repetition": None,
                 "children": []}, n_out + n_through
@@ -196,6 +200,11 @@ class Gen:
             ln = rng.choice([l for l in LOCAL_POOL if l not in scope] or ["L2"])
             locals_.append([ln, gen_size_expr(rng, scope) if self.qubits else gen_expr(rng, scope, 2)])
         scope_l = scope + [l[0] for l in locals_]
+        if is_root and ports and rng.random() < 0.3:
+            # a root port whose declared size is read in the root's own scope: a local variable, or a compound expression
+            k = rng.randrange(len(ports))
+            if ports[k]["size"] is not None or self.root_sized or True:
+                ports[k]["size"] = E.sym(locals_[0][0]) if locals_ and rng.random() < 0.6 else (gen_size_expr(rng, scope_l) if scope_l else ports[k]["size"])
         # children and wiring
         n_children = 1 if is_rep else rng.randint(1, self.max_children)
         names = rng.sample(CHILD_NAMES, n_children)
